@@ -263,8 +263,12 @@ def run(ctx):
                     ctx.count("fault.connect_refused")
                 pol = fault_policy(spec, salt, taken, ctx) if salt != "nopolicy" else None
                 sched = r.choice(["fifo", "random", "random"])
+                # an origin that answers as soon as it has the request head (matters when the request body is streamed)
+                early = r.random() < 0.3
+                if early:
+                    ctx.count("early_origin_runs")
                 try:
-                    d, info = h1case.execute(spec, opts, r, client_seg=r.choice(["whole", "random", "bytes"]) if len(stream) < 1500 else "random", server_seg=r.choice(["whole", "random"]), schedule=sched, extra_policy=pol, client_eof=r.random() < 0.2, **kw)
+                    d, info = h1case.execute(spec, opts, r, client_seg=r.choice(["whole", "random", "bytes"]) if len(stream) < 1500 else "random", server_seg=r.choice(["whole", "random"]), schedule=sched, extra_policy=pol, client_eof=r.random() < 0.2, early_origin=early, **kw)
                 except Exception as e:
                     ctx.violation("harness-or-layer-crash", {"stream": stream, "fault": (kind, arg), "exc": repr(e)})
                     continue
@@ -273,7 +277,7 @@ def run(ctx):
                     continue
                 for e in d.exceptions:
                     ctx.seen("layer_exceptions", f"{e[0]}@{e[1]}")
-                witness = {"mode": spec["mode"], "stream": stream, "fault": (kind, arg), "options": optset, "policy_taken": sorted(taken), "schedule": sched, "all_hooks": d.hook_names(), "exceptions": [e[:2] for e in d.exceptions]}
+                witness = {"mode": spec["mode"], "stream": stream, "fault": (kind, arg), "options": optset, "policy_taken": sorted(taken), "schedule": sched, "early_origin": early, "all_hooks": d.hook_names(), "exceptions": [e[:2] for e in d.exceptions]}
                 seqs = check_lifecycle(ctx, d, witness)
                 pc = pos_class(stream, arg) if kind == "client_cut" else (kind if kind == "none" else f"{kind}")
                 sig = (kind, pc, tuple(sorted(taken)), tuple(sorted(optset)), tuple(sorted(set(seqs))))
